@@ -102,6 +102,16 @@ func (r *runner) Op(t []string) string {
 			kind = t[1]
 		}
 		return r.restarted(kind, err)
+	case t[0] == "crashopen" && len(t) == 2:
+		if !crashPoints[t[1]] {
+			return "bad-op"
+		}
+		fired, err := e.CrashInOpen(t[1])
+		kind := "kill"
+		if fired {
+			kind = "open:" + t[1]
+		}
+		return r.restarted(kind, err)
 	case (t[0] == "f" || t[0] == "r") && len(t) == 1:
 		return r.seen()
 	case t[0] == "snap" && len(t) == 1:
